@@ -9,7 +9,8 @@ import itertools
 import math
 
 from adsg_core.graph.adsg_basic import BasicDSG
-from adsg_core.graph.adsg_nodes import (NamedNode, DesignVariableNode, MetricNode, MetricType, SelectionChoiceNode)
+from adsg_core.graph.adsg_nodes import (NamedNode, DesignVariableNode, MetricNode, MetricType, SelectionChoiceNode,
+                                        ConnectorNode, ConnectorDegreeGroupingNode)
 from adsg_core.graph.choice_constraints import ChoiceConstraintType
 
 CONS_TYPES = {
@@ -24,7 +25,10 @@ MTYPES = {None: None, 'none': MetricType.NONE, 'objective': MetricType.OBJECTIVE
 
 def model_graph(spec):
     """The part of the spec the Lean model's DSG consumes."""
-    return {'n': spec['n'], 'derives': spec['derives'], 'sel': spec['sel'], 'start': spec['start'],
+    derives = list(spec['derives'])
+    for grp in spec.get('groups', []):   # member -> grouping node DERIVES edges are added by add_connection_choice
+        derives += [[m, grp['node']] for m in grp['members']]
+    return {'n': spec['n'], 'derives': derives, 'sel': spec['sel'], 'start': spec['start'],
             'incompat': spec.get('incompat', []), 'cons': spec.get('cons', [])}
 
 
@@ -179,6 +183,14 @@ def make_node(spec, i):
     for mt in spec.get('metrics', []):
         if mt['node'] == i:
             return MetricNode('M%03d' % mt['name'], direction=mt['dir'], ref=mt['ref'], type_=MTYPES[mt['decl']])
+    for c in spec.get('connectors', []):
+        if c['node'] == i:
+            if c['kind'] == 'list':
+                return ConnectorNode('N%03d' % i, deg_list=list(c['v']), repeated_allowed=c['rep'])
+            return ConnectorNode('N%03d' % i, deg_min=c['v'], deg_max=math.inf, repeated_allowed=c['rep'])
+    for grp in spec.get('groups', []):
+        if grp['node'] == i:
+            return ConnectorDegreeGroupingNode('N%03d' % i)
     return NamedNode('N%03d' % i)
 
 
@@ -193,6 +205,13 @@ def build(spec, initialize=True):
         cn.append(g.add_selection_choice('C%02d' % ci, nodes[c['o']], [nodes[k] for k in c['opts']]))
     for a, b in spec.get('incompat', []):
         g.add_incompatibility_constraint([nodes[a], nodes[b]])
+    conn_nodes = []
+    groups = {grp['node']: grp['members'] for grp in spec.get('groups', [])}
+    for ki, k in enumerate(spec.get('conn', [])):
+        def entry(i):
+            return (nodes[i], [nodes[m] for m in groups[i]]) if i in groups else nodes[i]
+        conn_nodes.append(g.add_connection_choice('K%02d' % ki, [entry(i) for i in k['src']], [entry(i) for i in k['tgt']],
+                                                  exclude=[(nodes[a], nodes[b]) for a, b in k.get('excl', [])]))
     cons = spec.get('cons', [])
     dv_links = spec.get('dv_links', [])
     if cons or dv_links:
@@ -205,7 +224,9 @@ def build(spec, initialize=True):
             g = g.initialize_choices()
     else:
         g = g.set_start_nodes({nodes[s] for s in spec['start']}, initialize_choices=initialize)
-    return Built(spec, g, nodes, cn)
+    b = Built(spec, g, nodes, cn)
+    b.conn_nodes = conn_nodes
+    return b
 
 
 def all_assignments(spec):
@@ -265,3 +286,56 @@ def attach_metrics(rng, spec, k_lo=1, k_hi=4):
     spec['n'] = n
     spec['metrics'] = ms
     return spec
+
+
+CONN_ALPHA = [('list', [0, 1]), ('list', [1]), ('list', [0, 1, 2]), ('list', [1, 2]), ('list', [2]), ('list', [0, 2]),
+              ('min', 0), ('min', 1), ('min', 2)]
+
+
+def gen_conn(rng, p_group=.35, p_excl=.12, two_choices=.3):
+    """Root with one (or two nested) selection choices; 1-3 source and 1-3 target connectors, each permanent (under the
+    root) or tied to an option; optionally a grouping node over 2-3 source (or target) connectors; exclusion edges."""
+    nopt = rng.randint(2, 3)
+    n = 1 + nopt
+    derives = []
+    sel = [{'o': 0, 'opts': list(range(1, 1 + nopt))}]
+    attach = [0] + list(range(1, 1 + nopt))
+    if rng.random() < two_choices:
+        o2 = n
+        n += 1
+        derives.append([rng.choice(attach), o2])
+        k2 = rng.randint(2, 3)
+        sel.append({'o': o2, 'opts': list(range(n, n + k2))})
+        attach += list(range(n, n + k2))
+        n += k2
+    ns, nt = rng.randint(1, 3), rng.randint(1, 3)
+    connectors = []
+
+    def new_conn():
+        nonlocal n
+        kind, v = rng.choice(CONN_ALPHA)
+        node = n
+        n += 1
+        parent = 0 if rng.random() < .45 else rng.choice(attach)
+        derives.append([parent, node])
+        connectors.append({'node': node, 'kind': kind, 'v': v, 'rep': rng.random() < .5})
+        return node
+    src = [new_conn() for _ in range(ns)]
+    tgt = [new_conn() for _ in range(nt)]
+    groups = []
+    src_entries, tgt_entries = list(src), list(tgt)
+    if ns >= 2 and rng.random() < p_group:
+        members = sorted(rng.sample(src, rng.randint(2, min(3, ns))))
+        gnode = n
+        n += 1
+        groups.append({'node': gnode, 'members': members})
+        src_entries = [gnode] + [s_ for s_ in src if s_ not in members]
+    elif nt >= 2 and rng.random() < p_group * .5:
+        members = sorted(rng.sample(tgt, 2))
+        gnode = n
+        n += 1
+        groups.append({'node': gnode, 'members': members})
+        tgt_entries = [gnode] + [t_ for t_ in tgt if t_ not in members]
+    excl = [[a, b] for a in src_entries for b in tgt_entries if rng.random() < p_excl]
+    return {'n': n, 'derives': derives, 'sel': sel, 'start': [0], 'incompat': [], 'cons': [], 'connectors': connectors,
+            'groups': groups, 'conn': [{'src': src_entries, 'tgt': tgt_entries, 'excl': excl}]}
